@@ -22,6 +22,12 @@ PROPS = {
         'quick': 24000,
         'thorough': 600000,
     },
+    'C04': {
+        'level': 'exploration',
+        'strata': [('parser-built-recorded', 'frame', 1.0)],
+        'quick': 12000,
+        'thorough': 300000,
+    },
     'C05': {
         'level': 'fault_enumeration',
         'strata': [('twin-solve-vs-loops', 'multi', 1.0)],
